@@ -82,11 +82,11 @@ def component_oracle(ops, outs):
         if o.startswith("trap") or o in ("hang", "abort"):
             # with arbitrary feedback the only admissible trap is a clock running backwards, which the generator never produces
             return [{"oracle": "no_trap", "detail": "op#%d `%s` -> %s" % (i, ops[i][:100], o), "signature": {"oracle": "no_trap", "kind": o, "at": "rate-step"}}]
-    prev = None; mx = None; prev_p = 0.0; eqn_key = None
+    prev = None; mx = None; prev_p = 0.0; eqn_key = None; rtt_prev = None
     for op, o in zip(ops, outs):
         w = op.split(" ")
         if w[0] == "new":
-            mx = int(w[1]); continue
+            mx = int(w[1]); rtt_prev = None; continue
         if w[0] != "step" or not o.startswith("rate="):
             continue
         f = o.split(" ")[0][5:].split(",")
@@ -99,6 +99,13 @@ def component_oracle(ops, outs):
         if prev is not None and not fb and prev[1] >= 1 and rate > prev[0]:
             return [{"oracle": "nofb_no_increase", "detail": "rate %d -> %d without feedback (`%s`)" % (prev[0], rate, op), "signature": {"oracle": "nofb_no_increase"}}]
         if fb:
+            # RTT estimate: the first sample, afterwards the 0.9 / 0.1 moving average of the samples (same IEEE operations, so bit-exact)
+            sample = int(w[3]) / 1000.0
+            exp = sample if rtt_prev is None else (1.0 - 0.1) * rtt_prev + 0.1 * sample
+            if rttb == "-" or c13.bits_to_float(rttb) != exp:
+                return [{"oracle": "rtt_ewma", "detail": "RTT estimate %s after a sample of %s ms on a previous estimate of %s; the 0.9/0.1 moving average is %r (`%s`)" %
+                         ("-" if rttb == "-" else repr(c13.bits_to_float(rttb)), w[3], rtt_prev, exp, op), "signature": {"oracle": "rtt_ewma"}}]
+            rtt_prev = exp
             p = struct.unpack(">d", struct.pack(">Q", int(w[5])))[0]
             # section 4.3: the first feedback that reports a loss event rate above the previous one ends slow start
             if prev is not None and prev[1] == 1 and p > prev_p and mode != 2:
